@@ -266,7 +266,9 @@ func (e *Evaluator) evalComponentStmt(node *ast.ComponentStmt, env *object.Env) 
 				return val
 			}
 
-			newEnv.Set(key, val)
+			if err := newEnv.Set(key, val); err != nil {
+				return e.newError(node, "%s", err.Error())
+			}
 		}
 	}
 
